@@ -12,7 +12,8 @@ VERIF = os.path.dirname(os.path.dirname(os.path.abspath(__file__)))
 REPO = os.environ.get('ARMULATOR_REPO', '/repo')
 DEPS = os.path.join(VERIF, '.deps')
 WORK = os.path.join(VERIF, '.work')
-EVIDENCE = os.path.join(VERIF, 'evidence')
+# runs against a scratch copy of the repository (tools/seedcheck.py, tools/mutant.py) write their evidence elsewhere
+EVIDENCE = os.environ.get('VERIF_EVIDENCE_DIR') or os.path.join(VERIF, 'evidence')
 REPLAY = os.path.join(EVIDENCE, 'replay')
 WHEELS = '/opt/veriftools/wheels'
 PY = '/venv/bin/python'
